@@ -190,6 +190,27 @@ CHECKS['C09'] = ('model_checking',
   'Derivations are never hard-coded for Linen; distinctness is on key data; lifted-transform '
   'rng clauses are decided in C05 / C06.', '§4 C09')
 
+CHECKS['C16'] = ('exploration',
+  'bounded-exhaustive enumeration of nested dict trees x flatten configurations and of State '
+  'pairs x filter tuples on the real flax functions, against a recursive reference flatten / prune '
+  'and a path-dictionary model of State set operations',
+  'Every dict in the listed tree families (depth <= 3, <= 2 keys per level; all two-key shapes up '
+  'to the complete 14-node tree, and all trees with <= 6 nodes over keys {a,b,c} (+ ints 0,1 for '
+  'NNX) with int / array / None / empty-dict leaves), in every container (dict, FrozenDict, State), '
+  'with every sep in {None, "/", "."}, keep_empty_nodes and five is_leaf predicates, is pushed '
+  'through the real flatten_dict / unflatten_dict / path_aware_map and flatten_mapping / '
+  'flatten_to_sequence / unflatten_mapping and compared key for key with an independent recursive '
+  'reference (flatten, exact or pruned round trip, flatten∘unflatten = id, order independence, '
+  'path_aware_map call log and structure). Every pair of States over 4- and 5-path universes (str '
+  'and int keys, three value schemes, built directly and via nnx.state of a module) and every '
+  'legal 1-3-tuple over 15 filters is pushed through to_flat_state / from_flat_state, '
+  'to_pure_dict / replace_by_pure_dict, split / filter / merge_state, diff, | and - and compared '
+  'with a {path: leaf} dictionary model.',
+  'Quick covers trees with <= 8 (shape family) / <= 4 (rich family) nodes, two universes and '
+  'filter tuples of length <= 2 (a defect that needs three filters is seen only by thorough); '
+  'is_leaf true at the root, separators occurring in keys, prefix-conflicting flat dicts and int '
+  'keys with a separator are outside the claim.', '§4 C16')
+
 NOT_APPLICABLE = {}
 
 
